@@ -294,13 +294,43 @@ def _check_decode_pair(rec, o0, o3, keeper):
 REFUSALS = ["ctor-widths", "set_entity_ids-widths", "ctor-dlen", "setter-dlen"]
 
 
-def check_refusal(rec, how, a, b=None):
+def _field_makers():
+    """the ways a caller makes an ID field: the width-dispatching generator (typed classes) and the documented base class"""
+    return {"typed": U.L.ByteFieldGenerator.from_int, "generic": lambda w, v: U.L.UnsignedByteField(v, w)}
+
+
+def check_same_width_accepted(rec, w, ka, kb):
+    """source and destination ID of the SAME width are accepted whatever classes carry them (typed / generic base class)"""
+    rec.case(True, ops=2)
+    case = {"kind": "samewidth", "w": w, "classes": [ka, kb]}
+    mk = _field_makers()
+    src, dst = _idval(0x21, w), _idval(0xB1, w)
+    exp = R.header(0, 0, 0, 0, 0, 0, 0, w, 0, 1, src, 3, dst)
+    for how in ("ctor", "set_entity_ids"):
+        try:
+            if how == "ctor":
+                conf = U.L.PduConfig(mk[ka](w, src), mk[kb](w, dst), mk["typed"](1, 3), U.L.TransmissionMode(0))
+                h = U.L.PduHeader(U.L.PduType(0), U.L.SegmentMetadataFlag(0), 0, conf)
+            else:
+                conf = U.L.PduConfig(mk["typed"](1, 1), mk["typed"](1, 2), mk["typed"](1, 3), U.L.TransmissionMode(0))
+                h = U.L.PduHeader(U.L.PduType(0), U.L.SegmentMetadataFlag(0), 0, conf)
+                h.set_entity_ids(mk[ka](w, src), mk[kb](w, dst))
+            raw = bytes(h.pack())
+        except Exception as e:
+            rec.violation(f"C05.encode/PduHeader/{how}/same-width-ids-refused/classes={ka}+{kb}", case, repr(e), exp)
+            continue
+        if raw != exp:
+            rec.violation(f"C05.encode/PduHeader/{how}/octets/classes={ka}+{kb}", case, raw, exp)
+    rec.outcome("same-width-accepted")
+
+
+def check_refusal(rec, how, a, b=None, maker="typed"):
     rec.case(True, ops=1)
-    case = {"kind": "refusal", "how": how, "a": str(a), "b": None if b is None else str(b)}
+    case = {"kind": "refusal", "how": how, "a": str(a), "b": None if b is None else str(b), "maker": maker}
     cfg = dict(U.CFG_DEFAULT)
     try:
         if how.endswith("widths"):
-            gen = U.L.ByteFieldGenerator.from_int
+            gen = _field_makers()[maker]
             if how == "ctor-widths":
                 conf = U.L.PduConfig(gen(a, 1), gen(b, 2), gen(1, 3), U.L.TransmissionMode(0))
                 r = U.L.PduHeader(U.L.PduType(0), U.L.SegmentMetadataFlag(0), 0, conf).pack()
@@ -793,8 +823,13 @@ def run_shard(item):
         for a in WIDTHS:
             for b in WIDTHS:
                 if a != b:
-                    check_refusal(rec, "ctor-widths", a, b)
-                    check_refusal(rec, "set_entity_ids-widths", a, b)
+                    for maker in ("typed", "generic"):
+                        check_refusal(rec, "ctor-widths", a, b, maker)
+                        check_refusal(rec, "set_entity_ids-widths", a, b, maker)
+        for w in WIDTHS:
+            for ka in ("typed", "generic"):
+                for kb in ("typed", "generic"):
+                    check_same_width_accepted(rec, w, ka, kb)
         vals = [v for v in D.out_of_range(65535, item["n"]) if v > 65535]
         for v in vals:
             check_refusal(rec, "ctor-dlen", v)
@@ -816,7 +851,9 @@ def replay(case):
     elif case["kind"] == "pair":
         check_decode_pair(rec, case["o0"], case["o3"])
     elif case["kind"] == "refusal":
-        check_refusal(rec, case["how"], int(case["a"]), None if case["b"] is None else int(case["b"]))
+        check_refusal(rec, case["how"], int(case["a"]), None if case["b"] is None else int(case["b"]), case.get("maker", "typed"))
+    elif case["kind"] == "samewidth":
+        check_same_width_accepted(rec, case["w"], *case["classes"])
     elif case["kind"] == "setter":
         rec.case(True)
         setter_path(rec, unit.build(case["first"]), case["recipe"], case["how"])
